@@ -92,6 +92,7 @@ def run(chk: Check):
     # run the implementation first for the sampler cases (their requests depend on the recorded seed draws)
     impl_out = {}
     h_reuse = []
+    r_reuse = []
     for i, m in enumerate(meta):
         if m[0] == "hsampler":
             _, seed, d, sizes, forced = m
@@ -121,7 +122,13 @@ def run(chk: Check):
                 chk.fail("two Halton batches of n differ from one batch of 2n", {"case": {"kind": "hsampler", "seed": seed, "d": d, "n": n}})
         elif m[0] == "rsampler":
             _, seed, d, sizes = m
-            smp = rm.RSequenceSampler(batch_size=sizes[0], random_state=0)
+            if r_reuse and i % 2 == 0:
+                smp = r_reuse[0]          # one long-lived sampler object serving spaces of changing (growing AND shrinking) dimension
+                chk.count("rsequence_object:reused:" + ("fewer_dims" if d < r_reuse[1] else "more_or_equal_dims"))
+                r_reuse[1] = d
+            else:
+                smp = rm.RSequenceSampler(batch_size=sizes[0], random_state=0)
+                r_reuse[:] = [smp, d]
             g = install(smp, RecGen(seed)); smp._reset()
             idx0, start = int(smp._sequence_index), float(smp._sequence_start)
             ints = [x for x in g.log if x[0] == "integers"]; rnd = [x for x in g.log if x[0] == "random"]
